@@ -1,0 +1,103 @@
+//! The type, bound, generic-parameter and where-predicate rewriters of `src/types.rs`, run on
+//! the first such node of a parsed snippet at a given shape `(width, block_indent, alignment,
+//! offset)`.
+
+use rustc_ast::ast;
+
+use crate::config::{Config, Verbosity};
+use crate::parse::parser::Parser;
+use crate::parse::session::ParseSess;
+use crate::rewrite::{Rewrite, RewriteContext};
+use crate::shape::{Indent, Shape};
+use crate::visitor::{FmtVisitor, SnippetProvider};
+use crate::{FormatReport, Input};
+
+pub type S = (usize, usize, usize, usize);
+
+fn shape(x: S) -> Shape {
+    Shape {
+        width: x.0,
+        indent: Indent {
+            block_indent: x.1,
+            alignment: x.2,
+        },
+        offset: x.3,
+    }
+}
+
+/// What a rewriter returned.
+#[derive(Debug, Clone, PartialEq, Eq)]
+pub enum Out {
+    /// the rewrite failed (the caller keeps the source text)
+    Failed,
+    /// `rewrite_bound_params` only: there is no parameter in the list
+    Absent,
+    Text(String),
+}
+
+fn out(r: Option<String>) -> Out {
+    match r {
+        Some(s) => Out::Text(s),
+        None => Out::Failed,
+    }
+}
+
+fn generics(item: &ast::Item) -> Option<&ast::Generics> {
+    match item.kind {
+        ast::ItemKind::Fn(ref f) => Some(&f.generics),
+        ast::ItemKind::TyAlias(ref t) => Some(&t.generics),
+        _ => None,
+    }
+}
+
+fn run(kind: &str, item: &ast::Item, context: &RewriteContext<'_>, shape: Shape) -> Option<Out> {
+    Some(match kind {
+        // `type X = <ty>;`
+        "ty" => match item.kind {
+            ast::ItemKind::TyAlias(ref t) => out(t.ty.as_ref()?.rewrite(context, shape)),
+            _ => return None,
+        },
+        // `fn f() where <pred> {}`
+        "pred" => out(generics(item)?
+            .where_clause
+            .predicates
+            .first()?
+            .rewrite(context, shape)),
+        // `fn f<param>() {}`
+        "param" => out(generics(item)?.params.first()?.rewrite(context, shape)),
+        // `fn f<T: bounds>() {}`
+        "bounds" => out(generics(item)?
+            .params
+            .first()?
+            .bounds
+            .rewrite(context, shape)),
+        // `fn f<params>() {}`: the parameters as the binder of a `for<..>`
+        "binder" => {
+            match crate::types::rewrite_bound_params(context, shape, &generics(item)?.params) {
+                Ok(Some(s)) => Out::Text(s),
+                Ok(None) => Out::Absent,
+                Err(_) => Out::Failed,
+            }
+        }
+        _ => return None,
+    })
+}
+
+/// Parses `src` the way a file is parsed and runs the rewriter named by `kind` (`ty`, `pred`,
+/// `param`, `bounds`, `binder`) on the first item; `None` when the text does not parse or has
+/// no such node.
+pub fn rewrite(kind: &str, src: &str, config: &Config, s: S) -> Option<Out> {
+    let mut config = config.clone();
+    config.set().verbose(Verbosity::Quiet);
+    config.set().show_parse_errors(false);
+    rustc_span::create_session_if_not_set_then(config.edition().into(), |_| {
+        let mut psess = ParseSess::new(&config).ok()?;
+        let krate = Parser::parse_crate(Input::Text(src.to_owned()), &psess).ok()?;
+        psess.set_silent_emitter();
+        let snippet_provider: SnippetProvider = psess.snippet_provider(krate.spans.inner_span);
+        let visitor =
+            FmtVisitor::from_psess(&psess, &config, &snippet_provider, FormatReport::new());
+        let context = visitor.get_context();
+        run(kind, krate.items.first()?, &context, shape(s))
+    })
+}
